@@ -342,6 +342,10 @@ func (r *Runner) builtin(ctx context.Context, pos syntax.Pos, name string, args 
 			return failf(2, "usage: cd [dir]\n")
 		}
 		exit.code = r.changeDir(ctx, "cd", path)
+		if exit.code == 0 && len(r.dirStack) > 0 {
+			// The top of the directory stack is always the current directory.
+			r.dirStack[len(r.dirStack)-1] = r.Dir
+		}
 	case "wait":
 		fp := flagParser{remaining: args}
 		for fp.more() {
